@@ -31,8 +31,12 @@ class RecSubprocess(sprocess.Subprocess):
 
 
 class World(object):
-    def __init__(self, nlisteners=1, handler_kind=0):
+    def __init__(self, nlisteners=1, handler_kind=0, strip_ansi=False):
         self.options = env.fresh_world()
+        # options.strip_ansi concerns the child log only; every listener gets a child log (attached at spawn)
+        self.options.strip_ansi = bool(strip_ansi)
+        self.strip_ansi = bool(strip_ansi)
+        self.logged = []         # (data read, bytes given to childlog.info) per stdout read
         self.outs = []
         self.cur = None
         self.recording = False
@@ -83,8 +87,16 @@ class World(object):
             if kind == 'feed':
                 self.cur = op[1]
                 self.recording = True
+                d = pool.stdout_disp(pool.procs[op[1]])
+                n0 = len(d.childlog.lines) if d is not None and d.childlog is not None else 0
                 ok = pool.op_feed(op[1], bytes(op[2]))
                 self.recording = False
+                if ok and d.childlog is not None:
+                    new = [m for lv, m in d.childlog.lines[n0:] if lv == 'info']
+                    if bytes(op[2]):
+                        self.logged.append((bytes(op[2]), new[0] if len(new) == 1 else None))
+                    elif new:
+                        self.logged.append((b'', None))
                 if not ok:
                     return ['SInapplicable']
                 return self._render_outs()
@@ -92,7 +104,10 @@ class World(object):
                 r = pool.op_writable(op[1], tuple(op[2]))
                 return ['SRaise'] if r == 'raise' else []
             if kind == 'spawn':
-                return [] if pool.op_spawn(op[1], op[2]) else ['SInapplicable']
+                if not pool.op_spawn(op[1], op[2]):
+                    return ['SInapplicable']
+                pool.stdout_disp(pool.procs[op[1]]).childlog = env.RecLogger()
+                return []
             if kind == 'running':
                 return [] if pool.op_running(op[1]) else ['SInapplicable']
             if kind == 'stop':
@@ -207,12 +222,13 @@ def op_term(world, op):
     raise ValueError(op)
 
 
-def run_case(nlisteners, handler_kind, setup_ops, ops, maxdig):
+def run_case(nlisteners, handler_kind, setup_ops, ops, maxdig, strip_ansi=False):
     """Run setup_ops then ops on a fresh world.  Returns (coq_case, trace) where
     trace = [(obs_key, outs)] after every op of `ops`."""
-    w = World(nlisteners, handler_kind)
+    w = World(nlisteners, handler_kind, strip_ansi)
     for op in setup_ops:
         w.apply(op)
+    del w.logged[:]
     start = w.obs_sys()
     run_case.last_start = w.raw_key()
     run_case.last_start_listeners = [w.obs_listener(p) for p in w.pool.procs]
@@ -224,6 +240,7 @@ def run_case(nlisteners, handler_kind, setup_ops, ops, maxdig):
         trace.append((w.raw_key(), tuple(outs)))
         exp_terms.append('(%s, %s)' % (coq_list(list(key)), coq_list(outs)))
     run_case.last_final_listeners = [w.obs_listener(p) for p in w.pool.procs]
+    run_case.last_logged = list(w.logged)
     case = '(%s, %s, %s,\n     %s,\n     %s)' % (zlit(handler_kind), zlit(maxdig), start, coq_list(op_terms), coq_list(exp_terms))
     return case, trace
 
